@@ -37,6 +37,7 @@ func ruleC12(w *World, r *Report) {
 		"R12.2 the pending-request key stored, loaded and deleted is the message's Sequence(); R12.3 the waiter removes its pending entry on every exit and the responder's hand-off cannot block (buffered reply channel or select-default); R12.4 Shutdown in the heartbeat monitor / association requester only under timeout (or a failed response); " +
 		"R12.5 recoveryTS.local has a single writer (the constructor) and every NewRecoveryTimeStamp argument is pConn.ts.local; the heartbeat handler answers on every path past the type assertion and signals hbReset under enableHBTimer, and the monitor's hbReset case resets the ticker; " +
 		"R12.6 handleAssociationSetupRequest: cause accepted ⇔ upf.isConnected() edge, association state (remote node id / recovery time stamp) stored only on the connected branch; associationIEs: feature helpers called under exactly their configuration flags, each helper sets its (octet, bit) per TS 29.244 §8.2.25 with an adequate length guard, and the feature slice is long enough for every helper."
+	r.Explanation += " R12.1 accepts the retry loop in both spellings (counter counting down from, or attempts counting up to, maxReqRetries) and proves ≤ 1+N transmissions for either; a narrow attempt counter must not be able to wrap (WRAP); R12.8 the reader hands a time-out to Serve only for an expired read deadline."
 	r.NotDecided = "real-time spacing of retransmissions, loss patterns, scheduling"
 	sendReq := w.Fn(P, "pfcpiface.(*PFCPConn).sendPFCPRequestMessage")
 	send := w.Fn(P, "pfcpiface.(*PFCPConn).SendPFCPMsg")
@@ -53,7 +54,7 @@ func ruleC12(w *World, r *Report) {
 
 	// ---------- R12.1
 	sends := callsTo(sendReq, send)
-	r.floor("R12.1 transmissions in sendPFCPRequestMessage", len(sends), 2)
+	r.floor("R12.1 transmissions in sendPFCPRequestMessage", len(sends), 1)
 	waits := callsTo(sendReq, getResp)
 	r.floor("R12.1 waits in sendPFCPRequestMessage", len(waits), 1)
 	for k, c := range sends {
@@ -84,17 +85,119 @@ func ruleC12(w *World, r *Report) {
 				if k, isK := constInt(bo.Y); isK && k == 1 {
 					d = bo
 				}
-			} else if strings.HasSuffix(symOf(e).String(), "upf.maxReqRetries") {
-				initOK = true
+			} else {
+				for {
+					cv, isCv := e.(*ssa.Convert)
+					if !isCv {
+						break
+					}
+					e = cv.X
+				}
+				if strings.HasSuffix(symOf(e).String(), "upf.maxReqRetries") {
+					initOK = true
+				}
 			}
 		}
 		if initOK && d != nil {
 			counter, decr = phi, d
 		}
 	})
+	// the other spelling of the same loop: an attempt counter that counts up to maxReqRetries
+	var up *ssa.Phi
+	var upCond *ssa.BinOp
+	var upIncr *ssa.BinOp
+	upIter := int64(0) // iterations = maxReqRetries + upIter
 	if counter == nil {
-		r.bad("R12.1", sn, "retry counter", w.Pos(sendReq.Pos()), "no loop counter initialised from maxReqRetries and decremented by 1 was found: the number of transmissions is not bounded by 1+max_req_retries")
-	} else {
+		allInstrs(sendReq, func(i ssa.Instruction) {
+			phi, ok := i.(*ssa.Phi)
+			if !ok || len(phi.Edges) != 2 {
+				return
+			}
+			c0, haveC0 := int64(0), false
+			var inc *ssa.BinOp
+			for _, e := range phi.Edges {
+				if bo, ok := e.(*ssa.BinOp); ok && bo.Op == token.ADD && bo.X == ssa.Value(phi) {
+					if k, isK := constInt(bo.Y); isK && k == 1 {
+						inc = bo
+					}
+				} else if k, isK := constInt(e); isK {
+					c0, haveC0 = k, true
+				}
+			}
+			ifi := blockIf(phi.Block())
+			if inc == nil || !haveC0 || ifi == nil {
+				return
+			}
+			cmp, ok := ifi.Cond.(*ssa.BinOp)
+			if !ok || cmp.X != ssa.Value(phi) || (cmp.Op != token.LEQ && cmp.Op != token.LSS) {
+				return
+			}
+			bound, extra := cmp.Y, int64(0)
+			if bo, ok := bound.(*ssa.BinOp); ok && bo.Op == token.ADD {
+				if k, isK := constInt(bo.Y); isK {
+					bound, extra = bo.X, k
+				}
+			}
+			for {
+				cv, isCv := bound.(*ssa.Convert)
+				if !isCv {
+					break
+				}
+				bound = cv.X
+			}
+			if !strings.HasSuffix(symOf(bound).String(), "upf.maxReqRetries") {
+				return
+			}
+			up, upCond, upIncr = phi, cmp, inc
+			upIter = extra - c0
+			if cmp.Op == token.LEQ {
+				upIter++
+			}
+		})
+	}
+	exhaustedUp := func(a, b *ssa.BasicBlock) bool {
+		ifi := blockIf(a)
+		return up != nil && ifi != nil && ifi.Cond == ssa.Value(upCond) && len(a.Succs) == 2 && a.Succs[1] == b
+	}
+	if counter == nil && up != nil {
+		r.ok("R12.1", sn, "attempt counter = φ(c, counter+1) compared with maxReqRetries", w.Pos(up.Pos()), fmt.Sprintf("found; the loop body runs maxReqRetries%+d times", upIter))
+		hdr := up.Block()
+		pre, inLoop := 0, 0
+		for k, c := range sends {
+			ins := c.(ssa.Instruction)
+			if !reachesBlock(ins.Block(), hdr) || !hdr.Dominates(ins.Block()) {
+				pre++
+				r.check(reach(sendReq, ins, func(j ssa.Instruction) bool { return j == ins }, nil, nil) == nil, "R12.1", sn, fmt.Sprintf("transmission #%d (initial) runs once", k+1), w.Pos(c.Pos()), "not in a cycle", "the initial transmission is inside a loop")
+				continue
+			}
+			inLoop++
+			inBody := onlyVia(sendReq, ins, func(a, b *ssa.BasicBlock) bool {
+				ifi := blockIf(a)
+				return ifi != nil && ifi.Cond == ssa.Value(upCond) && a.Succs[0] == b
+			})
+			r.check(inBody, "R12.1", sn, fmt.Sprintf("transmission #%d only while attempts remain", k+1), w.Pos(c.Pos()), "dominated by the loop test", "a transmission is possible with the attempts exhausted (more than 1+N transmissions)")
+			// once per iteration: no way from the send back to itself that does not pass the loop head
+			again := reach(sendReq, ins, func(j ssa.Instruction) bool { return j == ins }, func(j ssa.Instruction) bool { return j == ssa.Instruction(up) }, nil)
+			r.check(again == nil, "R12.1", sn, fmt.Sprintf("transmission #%d happens once per attempt", k+1), w.Pos(c.Pos()), "no inner cycle", "a transmission can repeat within one attempt")
+		}
+		okInc := true
+		for i, p := range hdr.Preds {
+			if hdr.Dominates(p) && up.Edges[i] != ssa.Value(upIncr) {
+				okInc = false
+			}
+		}
+		r.check(okInc, "R12.1", sn, "every way back to the loop head costs one attempt", w.Pos(up.Pos()), "back edges carry counter+1", "an iteration can repeat without advancing the attempt counter")
+		total := int64(pre) + int64(inLoop)*upIter // in units beyond N·inLoop
+		r.check(inLoop == 1 && total <= 1, "R12.1", sn, "at most 1 + max_req_retries transmissions", w.Pos(sendReq.Pos()), fmt.Sprintf("%d before the loop + %d per attempt × (N%+d)", pre, inLoop, upIter), fmt.Sprintf("%d transmission(s) before the loop and %d per attempt over N%+d attempts: more than 1 + max_req_retries", pre, inLoop, upIter))
+		r.check(inLoop >= 1 && total >= 1, "R12.1", sn, "a retransmission exists", w.Pos(sendReq.Pos()), fmt.Sprintf("%d in-loop sends", inLoop), "fewer than 1 + max_req_retries transmissions: a request is given up early")
+		// the counter cannot wrap past its bound
+		weng := newEngine(w, r, "R12.1", map[*ssa.Function]bool{sendReq: true})
+		weng.wrapObls(sendReq)
+	}
+	exhausted := exhaustedUp
+	if counter == nil && up == nil {
+		r.bad("R12.1", sn, "retry counter", w.Pos(sendReq.Pos()), "no loop counter initialised from maxReqRetries and decremented by 1 (or counting up to it) was found: the number of transmissions is not bounded by 1+max_req_retries")
+	} else if counter != nil {
 		r.ok("R12.1", sn, "retry counter = φ(maxReqRetries, counter-1)", w.Pos(counter.Pos()), "found")
 		hdr := counter.Block()
 		positive := func(a, b *ssa.BasicBlock) bool {
@@ -108,7 +211,7 @@ func ruleC12(w *World, r *Report) {
 			}
 			return (op == token.GTR && k == 0) || (op == token.NEQ && k == 0) || (op == token.GEQ && k == 1)
 		}
-		exhausted := func(a, b *ssa.BasicBlock) bool {
+		exhausted = func(a, b *ssa.BasicBlock) bool {
 			x, op, y, ok := edgeFact(a, b)
 			if !ok || x != ssa.Value(counter) {
 				return false
@@ -151,6 +254,8 @@ func ruleC12(w *World, r *Report) {
 			r.check(okDec && miss == nil, "R12.1", sn, fmt.Sprintf("retransmission #%d costs one retry", k+1), w.Pos(c.Pos()), "back edge carries counter-1", "a retransmission does not decrement the retry counter")
 		}
 		r.check(inLoop >= 1, "R12.1", sn, "a retransmission exists", w.Pos(sendReq.Pos()), fmt.Sprintf("%d in-loop sends", inLoop), "no retransmission: requests are sent once only")
+	}
+	if counter != nil || up != nil {
 		// verdicts
 		for k, ret := range returnsOf(sendReq) {
 			if len(ret.Results) != 2 {
@@ -431,6 +536,7 @@ func ruleC12(w *World, r *Report) {
 	ruleC12NewPeers(w, r)
 	ruleC12ResetConsumers(w, r)
 	ruleC12Connected(w, r)
+	ruleC12ReaderVerdict(w, r)
 }
 
 func isTypeAssertOK(v ssa.Value) bool {
@@ -931,3 +1037,39 @@ func ruleC12Connected(w *World, r *Report) {
 }
 
 func resolveIfConst(v ssa.Value) ssa.Value { return v }
+
+// ruleC12ReaderVerdict (R12.8): the per-association reader declares the peer silent — hands the
+// time-out to Serve, which tears the association down — only for a read deadline that expired. Any
+// other read error (ICMP port unreachable while the peer restarts, a truncated datagram) is not
+// "every transmission went unanswered".
+func ruleC12ReaderVerdict(w *World, r *Report) {
+	const P = "C12"
+	serve := w.Fn(P, "pfcpiface.(*PFCPConn).Serve")
+	n := 0
+	for _, reader := range serve.AnonFuncs {
+		allInstrs(reader, func(i ssa.Instruction) {
+			var ch ssa.Value
+			var pos token.Pos
+			switch x := i.(type) {
+			case *ssa.Send:
+				ch, pos = x.Chan, x.Pos()
+			case *ssa.Select:
+				for _, st := range x.States {
+					if st.Dir == types.SendOnly {
+						ch, pos = st.Chan, x.Pos()
+					}
+				}
+			}
+			if ch == nil {
+				return
+			}
+			n++
+			g := onlyVia(reader, i, func(a, b *ssa.BasicBlock) bool {
+				v, truth, ok := boolEdge(a, b)
+				return ok && truth && strings.Contains(symOf(v).String(), "Timeout(")
+			})
+			r.check(g, "R12.8", w.FuncName(reader), "the peer is declared silent only for an expired read deadline", w.Pos(pos), "hand-off under err.Timeout()", "the reader reports a time-out to Serve for read errors that are not time-outs: one ICMP error or malformed read ends the association and removes its sessions while retransmissions remain")
+		})
+	}
+	r.floor("R12.8 reader hand-offs to Serve", n, 1)
+}
